@@ -315,7 +315,7 @@ def known_value_keys(pid):
     return [[k['match']['sol'], k['match']['fn']] for k in known_for(pid) if 'sol' in k.get('match', {}) and 'fn' in k.get('match', {})]
 
 
-def value_check(pid, tier_, plan, kbits=14, rule='', extra_execs=(), all_known=False, mix=False, accstat=True):
+def value_check(pid, tier_, plan, kbits=14, rule='', extra_execs=(), all_known=False, mix=False, accstat=True, zeros=True):
     """plan: list of (solution, evaluators or None, nassign, npts)."""
     t0 = time.time()
     rng = random.Random(seed())
@@ -329,7 +329,7 @@ def value_check(pid, tier_, plan, kbits=14, rule='', extra_execs=(), all_known=F
     # exact zeros: one assignment per zeroable parameter with only that parameter exactly 0 (all of them for solutions with
     # <= 16 such parameters and in the thorough tier, a random 8 otherwise), plus one assignment with a random third of them 0
     for sol, evs, na, npt in plan:
-        ks = gen.zeroable(sol)
+        ks = gen.zeroable(sol) if zeros else []
         if not ks:
             continue
         pick = list(ks) if (len(ks) <= 16 or tier_ == 'thorough') else rng.sample(ks, 8)
@@ -456,7 +456,7 @@ def c09(tier_):
     na, npt = reps(tier_, (4, 2), (30, 4))
     plan = [(s, None, na, npt) for s in ALLVAL if s != 'sod_1d'] + [('sod_1d', [('source_rho', 'SS'), ('source_rho_u', 'SS')], na, npt)]
     gen.FULL_MANTISSA[0] = True      # generic 53-bit inputs: sums and products of the inputs are inexact in double
-    return value_check('C09', tier_, plan, kbits=6, all_known=True, mix=True, accstat=True,
+    return value_check('C09', tier_, plan, kbits=6, all_known=True, mix=True, accstat=True, zeros=(tier_ == 'thorough'),
         rule='all solutions of C01-C08, each assignment and point evaluated in both precisions with identical (exactly representable) inputs; transport coefficients and velocity amplitudes rescaled by random decades so that different groups of terms dominate, inputs generic 53-bit doubles; each result must be finite and within 2^6 u_p mag of the 45-digit oracle value (u_d = 2^-53, u_ld = 2^-64), hence double and long double agree to double precision; and per (solution, evaluator) the median error of the long double results, in long double roundoffs, must not exceed the median error of the double results, in double roundoffs, by more than 4 bits (history variable acc of MasaTrace): long double is not limited to double accuracy.')
 
 
